@@ -135,6 +135,7 @@ class Counter(object):
         self.fail_at = fail_at
         self.exc = exc or ProbeFault
         self.log = []
+        self.earlier_model = False      # while set, every function returns the values of an EARLIER state of the model (a fit in progress)
 
     def tick(self, tag, x):
         self.n += 1
@@ -175,6 +176,8 @@ class PyFn(object):
     def __call__(self, r):
         if not self.zero:
             self.counter.tick(self.tag, r)
+        if self.counter.earlier_model:
+            return self.poly.fl(r) + 1.0
         return self.poly.fl(r)
 
 
@@ -285,6 +288,21 @@ def render_ini(ctx, target_spelling=None, bad=None):
     return "\n".join(out) + "\n"
 
 
+class ConvertedPotential(Potential):
+    """a Potential whose energy() / force() are its own (the way a sub-class converts units or adds a correction): the callable
+    handed to the base class is a decoy, the model is what energy() and force() return"""
+
+    def __init__(self, a, b, fn):
+        Potential.__init__(self, a, b, lambda r: 12345.0 + 0.5 * r)
+        self._true = Potential(a, b, fn)
+
+    def energy(self, r):
+        return self._true.energy(r)
+
+    def force(self, r, h=1e-6):
+        return self._true.force(r)
+
+
 class LazyDict(dict):
     """a dictionary that holds nothing until it is asked: d[key] works, d.get(key) and iteration see an empty mapping"""
 
@@ -304,8 +322,11 @@ def build_objects(ctx, counter):
     L = ctx.L
     analytic = ctx.flavour == "analytic"
 
+    # the writers use a potential through energy() and force(): every third pair model hands over sub-classed potentials
+    P_ = ConvertedPotential if (m["fam"] == "pair" and m["tgt"] in ("LAMMPS", "DLPOLY", "GULP") and ctx.idx % 3 == 2) else Potential
+
     def pots_of(lst, kind):
-        return [Potential(L(a), L(b), PyFn(probe(pair_fn(a, b, kind)), counter, "%s %d-%d" % (kind, a, b), analytic)) for a, b in lst]
+        return [P_(L(a), L(b), PyFn(probe(pair_fn(a, b, kind)), counter, "%s %d-%d" % (kind, a, b), analytic)) for a, b in lst]
     pots = pots_of(m["pots"], "pair")
     eams = []
     for a in m["els"]:
@@ -470,6 +491,15 @@ def execute(ctx, route, fail_at=0, spelling=None, workdir=None, bad=None, preexi
     try:
         if route in ("class", "wp", "func"):
             w = make_writer(ctx, route, counter)
+            if route == "class" and not fail_at and ctx.idx % 4 == 1:
+                # the tabulation object was written once while the model's functions were in an earlier state (a fitting loop
+                # writes after every step): the write that is examined must describe the functions as they are NOW
+                counter.earlier_model = True
+                try:
+                    w(Sink(binary))
+                finally:
+                    counter.earlier_model = False
+                res["rewritten_after_change"] = True
             w(sink)
             res["data"] = sink.value()
             if route == "class" and not fail_at:
